@@ -1,7 +1,7 @@
 (* Property C12, parts (c) version/platform tests and (d) constant folding.
    Only theorem statements closed by `exact`, each followed by Print Assumptions. *)
 From Coq Require Import ZArith List String Bool.
-From C12 Require Import PyRules Version Proofs ProofsVersion.
+From C12 Require Import PyRules Version Proofs ProofsVersion ProofsGenReach ProofsFloat.
 From Gen Require Import ConstFold Reach.
 Import ListNotations.
 Open Scope Z_scope.
@@ -64,6 +64,115 @@ Theorem condition_tables_sound : forall l r x y, tv l -> tv r -> sem l x -> sem 
 Proof. intros; repeat split; [apply or_table_sound | apply and_table_sound | apply not_table_sound]; assumption. Qed.
 Print Assumptions condition_tables_sound.
 
+(* ---- the decision cores are REGENERATED from mypy/reachability.py (Gen.Reach); the theorems above hold for them *)
+
+(* consider_sys_version_info after index/thing are computed, for a two-component target: never raises IndexError and is
+   the specification Version.consider the theorems above are about *)
+Theorem consider_core_is_spec : forall major minor idx op th,
+  consider_core [major; minor] idx op th = Some (consider major minor idx op th).
+Proof. exact ProofsGenReach.consider_core_eq. Qed.
+Print Assumptions consider_core_is_spec.
+
+Theorem version_test_exact_gen : forall major minor micro lvl serial idx op th b,
+  consider_core [major; minor] idx op th = Some (always b) ->
+  runtime_test (vinfo major minor micro lvl serial) idx op th
+  = Some (if f5_class major minor idx op th then negb b else b).
+Proof. exact ProofsGenReach.version_test_exact_gen. Qed.
+Print Assumptions version_test_exact_gen.
+
+(* reverse_op is the mirror of the run-time comparison:  a <op> b  =  b <reverse_op[op]> a  on ints and tuples of ints *)
+Theorem reverse_op_mirror_int : forall op r a b, reverse_op op = Some r ->
+  py_cmp_op r (Z.compare b a) = py_cmp_op op (Z.compare a b).
+Proof. exact ProofsGenReach.reverse_op_mirror_int. Qed.
+Print Assumptions reverse_op_mirror_int.
+Theorem reverse_op_mirror_tuple : forall op r a b, reverse_op op = Some r ->
+  py_cmp_op r (tuple_cmp b a) = py_cmp_op op (tuple_cmp a b).
+Proof. exact ProofsGenReach.reverse_op_mirror_tuple. Qed.
+Print Assumptions reverse_op_mirror_tuple.
+Theorem reverse_op_total_on_known_ops : forall op, known_op op = true <-> exists r, reverse_op op = Some r /\ known_op r = true.
+Proof. exact ProofsGenReach.reverse_op_known. Qed.
+Print Assumptions reverse_op_total_on_known_ops.
+
+(* `<literal> <op> sys.version_info[...]`: mypy decides the reversed test; its run-time value is the written one *)
+Theorem version_test_flipped_exact_gen : forall major minor micro lvl serial idx op r th b,
+  reverse_op op = Some r ->
+  consider_core [major; minor] idx r th = Some (always b) ->
+  runtime_test_flipped (vinfo major minor micro lvl serial) idx op th
+  = Some (if f5_class major minor idx r th then negb b else b).
+Proof. exact ProofsGenReach.version_test_flipped_exact_gen. Qed.
+Print Assumptions version_test_flipped_exact_gen.
+
+(* the and/or block and the `not` table of infer_condition_value are the tables condition_tables_sound is about *)
+Theorem infer_op_table_is_spec : forall l r,
+  infer_op_table "or" l r = or_table l r /\ infer_op_table "and" l r = and_table l r.
+Proof. intros; split; [exact (infer_op_table_or l r) | exact (infer_op_table_and l r)]. Qed.
+Print Assumptions infer_op_table_is_spec.
+Theorem inverted_truth_mapping_is_spec : forall v, truth_value v -> inverted_truth_mapping v = Some (inverted v).
+Proof. exact ProofsGenReach.inverted_truth_mapping_eq. Qed.
+Print Assumptions inverted_truth_mapping_is_spec.
+
+(* consider_sys_platform: comparison core and startswith core *)
+Theorem platform_cores_are_spec : forall platform op lit,
+  platform_cmp_core platform op lit = consider_platform_cmp platform op lit /\
+  platform_startswith_core platform lit = always (String.prefix lit platform).
+Proof. intros; split; [exact (platform_cmp_core_eq platform op lit) | exact (platform_startswith_core_eq platform lit)]. Qed.
+Print Assumptions platform_cores_are_spec.
+
+(* ---- (d) float / str / bytes folding (functions regenerated from mypy/constant_fold.py and mypyc/irbuild/constant_fold.py;
+   float VALUES stay symbolic, the theorems are about when folding happens and which operation it denotes) *)
+Theorem fold_float_sound : forall fo op l r v,
+  constant_fold_binary_float_op fo op l r = Folded v -> exists f, v = VFloat f /\ py_num_binop fo op l r = ROk f.
+Proof. exact ProofsFloat.fold_float_sound. Qed.
+Print Assumptions fold_float_sound.
+
+(* /, //, %: None exactly when CPython raises ZeroDivisionError *)
+Theorem fold_float_guard_exact : forall fo op l r a b,
+  (op = "/" \/ op = "//" \/ op = "%")%string -> to_float fo l = ROk a -> to_float fo r = ROk b ->
+  (constant_fold_binary_float_op fo op l r = NotFolded <-> py_num_binop fo op l r = RRaise ZeroDivisionError).
+Proof. exact ProofsFloat.fold_float_guard_exact. Qed.
+Print Assumptions fold_float_guard_exact.
+
+(* FULL statement Statement.fold_float_total (no operand makes the float folding code raise) is REFUTED: F7 *)
+Theorem fold_float_never_raises_refuted : exists fo op l r,
+  constant_fold_binary_float_op fo op l r = Crash OverflowError /\ py_num_binop fo op l r = RRaise OverflowError.
+Proof. exact ProofsFloat.fold_float_never_raises_refuted. Qed.
+Print Assumptions fold_float_never_raises_refuted.
+
+(* ... exactly: outside `**` only the int -> float conversion of an operand can raise *)
+Theorem fold_float_crash_only_conversion : forall fo op l r e,
+  op <> "**"%string -> constant_fold_binary_float_op fo op l r = Crash e ->
+  e = OverflowError /\ (to_float fo l = RRaise OverflowError \/ to_float fo r = RRaise OverflowError).
+Proof. exact ProofsFloat.fold_float_crash_only_conversion. Qed.
+Print Assumptions fold_float_crash_only_conversion.
+
+(* `**`: the guard (negative base only with an int exponent, or positive base) excludes ZeroDivisionError and complex
+   results, OverflowError is caught -- under the monitored contract on float_pow *)
+Theorem fold_float_pow_never_raises : forall fo l r e, pow_contract fo -> constant_fold_binary_float_op fo "**" l r <> Crash e.
+Proof. exact ProofsFloat.fold_float_pow_never_raises. Qed.
+Print Assumptions fold_float_pow_never_raises.
+
+Theorem fold_str_exact : forall op l r n,
+  constant_fold_binary_op_str_str op l r = (if String.eqb op "+" then Some (String.append l r) else None) /\
+  constant_fold_binary_op_str_int op l n = (if String.eqb op "*" then Some (py_str_repeat l n) else None) /\
+  constant_fold_binary_op_int_str op n r = (if String.eqb op "*" then Some (py_str_repeat r n) else None).
+Proof. exact ProofsFloat.fold_str_exact. Qed.
+Print Assumptions fold_str_exact.
+Theorem fold_bytes_exact : forall op (l r : list N) n,
+  constant_fold_binary_op_extended_bytes_bytes op l r = (if String.eqb op "+" then Some (l ++ r) else None) /\
+  constant_fold_binary_op_extended_bytes_int op l n = (if String.eqb op "*" then Some (py_bytes_repeat l n) else None) /\
+  constant_fold_binary_op_extended_int_bytes op n r = (if String.eqb op "*" then Some (py_bytes_repeat r n) else None).
+Proof. exact ProofsFloat.fold_bytes_exact. Qed.
+Print Assumptions fold_bytes_exact.
+Theorem seq_repeat_nonpositive : forall s (l : list N) n, n <= 0 -> py_str_repeat s n = EmptyString /\ py_bytes_repeat l n = [].
+Proof. intros; split; [exact (str_repeat_nonpos s n H) | exact (bytes_repeat_nonpos l n H)]. Qed.
+Print Assumptions seq_repeat_nonpositive.
+
+(* the int power is total in the model; its COST is not bounded by anything in the folding code:
+   `X: Final = 18446744073709551617 ** 9223372036854775808` does not finish (C20 finding, no theorem can help) *)
+Theorem py_pow_int_total : forall l r, 0 <= r -> py_pow_int l r = ROk (l ^ r).
+Proof. exact ProofsFloat.py_pow_int_total. Qed.
+Print Assumptions py_pow_int_total.
+
 (* non-vacuity: hypotheses are met by concrete non-trivial cases *)
 Example fold_example : constant_fold_binary_int_op "//" (-7) 2 = Folded (VInt (-4)).
 Proof. vm_compute. reflexivity. Qed.
@@ -73,3 +182,13 @@ Example version_example :
   consider 3 12 (IdxSlice None (Some 2)) ">=" (ThTuple [3; 10]) = always true /\
   f5_class 3 12 (IdxSlice None (Some 2)) ">=" (ThTuple [3; 10]) = false.
 Proof. split; vm_compute; reflexivity. Qed.
+Example consider_core_example :
+  consider_core [3; 12] (IdxSlice None (Some 2)) ">=" (ThTuple [3; 10]) = Some (always true) /\
+  reverse_op "<" = Some ">"%string /\ consider_core [3; 12] (IdxInt 1) ">" (ThInt 12) = Some (always false).
+Proof. repeat split; vm_compute; reflexivity. Qed.
+Example fold_float_example :
+  let fo := {| fl_sign := fun f => match f with FLit 0 => FZero | _ => FPos end; fl_fits := fun _ => true; fl_pow := fun _ _ => PowOk |} in
+  constant_fold_binary_float_op fo "/" (NInt 1) (NFloat (FLit 0)) = NotFolded /\
+  constant_fold_binary_float_op fo "/" (NInt 1) (NFloat (FLit 1)) = Folded (VFloat (FBin "/" (FOfInt 1) (FLit 1))) /\
+  constant_fold_binary_op_str_int "*" "ab" (-1) = Some EmptyString.
+Proof. repeat split; vm_compute; reflexivity. Qed.
